@@ -66,16 +66,21 @@ static void verdict(int v, const char *fmt, ...) {
 }
 
 /* ======================= race detector ======================= */
-typedef struct { uint64_t key; uint32_t wclk; uint8_t wtid, everw, pad[2]; uint32_t rclk[MAXT]; } shadow_t;
-static shadow_t *SH; static uint64_t SHCAP = 1u << 20;
+typedef struct { uint32_t wclk; uint8_t wtid, everw, pad[2]; uint32_t rclk[MAXT]; } shadow_t;
+/* shadow memory: open-addressed table of BLOCKS of 64 consecutive 4-byte granules (256 bytes of program memory).  Inside a block
+   the entries are contiguous (page locality for row sweeps); blocks are placed by a multiplicative hash, so two long contiguous
+   address ranges cannot pile up into one probe cluster (the first version hashed single granules with a locality-preserving
+   function and, depending on ASLR, spent minutes probing through overlapping ranges). */
+typedef struct { uint64_t bkey; shadow_t e[64]; } shblock_t;
+static shblock_t *SH; static uint64_t SHCAP = 1u << 16; static uint64_t sh_used = 0, sh_probes = 0;
 static inline shadow_t *sh_get(uint64_t key) {
-  uint64_t h = key ^ (key >> 22); /* locality-preserving: neighbouring granules share pages of the shadow table */
-  for (uint64_t i = 0; i < SHCAP; i++) { shadow_t *e = &SH[(h + i) & (SHCAP - 1)]; if (e->key == key) return e; if (e->key == 0) { e->key = key; return e; } }
-  verdict(4, "shadow table full"); return &SH[0];
+  uint64_t bk = (key >> 6) | (1ULL << 63), h = (bk * 0x9E3779B97F4A7C15ULL) >> 40;
+  for (uint64_t i = 0; i < SHCAP; i++) { shblock_t *b = &SH[(h + i) & (SHCAP - 1)]; if (b->bkey == bk) { sh_probes += i; return &b->e[key & 63]; } if (b->bkey == 0) { if (sh_used * 2 > SHCAP) break; b->bkey = bk; sh_used++; sh_probes += i; return &b->e[key & 63]; } }
+  verdict(4, "shadow table full"); return &SH[0].e[0];
 }
 static inline shadow_t *sh_find(uint64_t key) {
-  uint64_t h = key ^ (key >> 22);
-  for (uint64_t i = 0; i < SHCAP; i++) { shadow_t *e = &SH[(h + i) & (SHCAP - 1)]; if (e->key == key) return e; if (e->key == 0) return NULL; }
+  uint64_t bk = (key >> 6) | (1ULL << 63), h = (bk * 0x9E3779B97F4A7C15ULL) >> 40;
+  for (uint64_t i = 0; i < SHCAP; i++) { shblock_t *b = &SH[(h + i) & (SHCAP - 1)]; if (b->bkey == bk) return &b->e[key & 63]; if (b->bkey == 0) return NULL; }
   return NULL;
 }
 static void sh_clear_range(const void *p, size_t n) {
@@ -356,7 +361,7 @@ void __wrap_m4ri_die(const char *fmt, ...) { char m[256]; va_list ap; va_start(a
 static void root_thread(void *a) { (void)a; hb_root(); }
 static void execute(const uint8_t *prefix, int plen) {
   PREFIX = prefix; PREFLEN = plen;
-  SH = mmap(NULL, SHCAP * sizeof(shadow_t), PROT_READ | PROT_WRITE, MAP_PRIVATE | MAP_ANONYMOUS | MAP_NORESERVE, -1, 0);
+  SH = mmap(NULL, SHCAP * sizeof(shblock_t), PROT_READ | PROT_WRITE, MAP_PRIVATE | MAP_ANONYMOUS | MAP_NORESERVE, -1, 0);
   memset(TR, 0, sizeof *TR);
   g_in_exec = 1;
   CUR = -1; spawn_thread(-1, root_thread, NULL);
@@ -365,6 +370,7 @@ static void execute(const uint8_t *prefix, int plen) {
   if (!TR->verdict) { int live = 0; for (int i = 0; i < MAXT; i++) if (TH[i].state != T_UNUSED && TH[i].state != T_DONE) live++; if (live) verdict(3, "deadlock: %d thread(s) never finished", live); }
   if (!TR->verdict && plen > TR->npts) verdict(6, "prefix divergence: prefix has %d decisions, execution only %d", plen, TR->npts);
   if (!TR->verdict) hb_verify();
+  TR->digest[MAXT - 1] = sh_used; TR->digest[MAXT - 2] = sh_probes;
 }
 
 /* ======================= explorer ======================= */
@@ -375,7 +381,7 @@ typedef struct {
   volatile int lock; volatile uint64_t head, tail; volatile int active; volatile int stop;
   volatile uint64_t schedules, decisions, tree_nodes, races, mismatches, deadlocks, errors, pruned_by_bound, maxpts, accesses, static_writes, crossloc; volatile int maxthreads;
   volatile int nfail; struct { char msg[600]; char scen[160]; int verdict; uint16_t len; uint8_t c[MAXPREF]; } fails[32];
-  char samples[8][200]; volatile int nsamples; volatile int deadline_hit; volatile uint64_t dropped; volatile int stalled;
+  char samples[8][200]; volatile int nsamples; volatile int deadline_hit; volatile uint64_t dropped; volatile int stalled; volatile uint64_t slow_reruns;
 } xshared_t;
 static xshared_t *X; static work_t *Q;
 static void qlock(void) { while (__sync_lock_test_and_set(&X->lock, 1)) usleep(50); }
@@ -389,9 +395,18 @@ static void schedule_str(const uint8_t *c, int n, char *buf, size_t sz) { /* run
 }
 static void run_one(const work_t *w) {
   fflush(NULL);
-  pid_t p = fork();
-  if (p == 0) { execute(w->c, w->len); _exit(0); }
-  int st; { double t1 = now(); for (;;) { pid_t q = waitpid(p, &st, WNOHANG); if (q == p) break; if (q < 0 && errno != EINTR) break; if (now() - t1 > 400) { kill(p, SIGKILL); waitpid(p, &st, 0); break; } usleep(100); } }
+  int st = 0, timed_out = 0;
+  /* an execution that does not finish within the limit is re-run ALONE with a four times longer limit before it is called a hang
+     (the schedule is deterministic; a slow first run is an artefact of machine load) */
+  for (int attempt = 0; attempt < 2; attempt++) {
+    double limit = attempt ? 1600 : 400; timed_out = 0;
+    pid_t p = fork();
+    if (p == 0) { execute(w->c, w->len); _exit(0); }
+    double t1 = now(); for (;;) { pid_t q = waitpid(p, &st, WNOHANG); if (q == p) break; if (q < 0 && errno != EINTR) break; if (now() - t1 > limit) { kill(p, SIGKILL); waitpid(p, &st, 0); timed_out = 1; break; } usleep(100); }
+    if (!timed_out) break;
+    __sync_fetch_and_add(&X->slow_reruns, 1);
+  }
+  if (timed_out) { TR->verdict = 5; snprintf(TR->msg, sizeof TR->msg, "execution did not finish within 1600 s when re-run alone (livelock or hang)"); }
   if (!(WIFEXITED(st) && (WEXITSTATUS(st) == 0 || WEXITSTATUS(st) == 3))) { if (!TR->verdict) { TR->verdict = 2; snprintf(TR->msg, sizeof TR->msg, "execution ended abnormally (status %x)", st); } }
   __sync_fetch_and_add(&X->schedules, 1); __sync_fetch_and_add(&X->decisions, (uint64_t)TR->npts); __sync_fetch_and_add(&X->accesses, TR->accesses);
   if ((uint64_t)TR->npts > X->maxpts) X->maxpts = (uint64_t)TR->npts; if (TR->maxthreads > X->maxthreads) X->maxthreads = TR->maxthreads;
@@ -458,7 +473,7 @@ int main(int argc, char **argv) {
     for (int k = 0; k < 2; k++) { pid_t p = fork(); if (p == 0) { execute(w.c, w.len); _exit(0); } int st; waitpid(p, &st, 0); r[k] = TR->verdict; snprintf(m[k], 600, "%s", TR->msg); }
     if (r[0] != r[1] || strcmp(m[0], m[1])) { printf("HARNESS-ERROR: replay not deterministic (%d '%s' vs %d '%s')\n", r[0], m[0], r[1], m[1]); return 2; }
     printf("%s %s verdict=%d %s\n", r[0] ? "FAIL" : "ok", hb_name(), r[0], m[0]);
-    { int kc[16] = {0}; for (int i = 0; i < TR->npts; i++) kc[TR->kind[i] & 15]++; printf("decisions=%d by kind: start=%d fork=%d join=%d sections=%d static-write=%d static-read=%d lock=%d malloc=%d free=%d thread-end=%d; alloc_points=%d max_dev=%d\n", TR->npts, kc[0], kc[1], kc[2], kc[3], kc[4], kc[5], kc[6], kc[7], kc[8], kc[9], icb_alloc_points, icb_max_deviations); }
+    { int kc[16] = {0}; for (int i = 0; i < TR->npts; i++) kc[TR->kind[i] & 15]++; printf("shadow blocks=%llu of %llu, probes=%llu; ", (unsigned long long)TR->digest[MAXT - 1], (unsigned long long)SHCAP, (unsigned long long)TR->digest[MAXT - 2]); printf("decisions=%d by kind: start=%d fork=%d join=%d sections=%d static-write=%d static-read=%d lock=%d malloc=%d free=%d thread-end=%d; alloc_points=%d max_dev=%d\n", TR->npts, kc[0], kc[1], kc[2], kc[3], kc[4], kc[5], kc[6], kc[7], kc[8], kc[9], icb_alloc_points, icb_max_deviations); }
     return r[0] ? 1 : 0;
   }
   uint64_t nscen_done = 0;
@@ -478,8 +493,8 @@ int main(int argc, char **argv) {
   FILE *f = outp ? fopen(outp, "w") : stdout;
   fprintf(f, "{\"property\":\"%s\",\"tier\":\"%s\",\"seed\":0,\"workers\":%d,\"total_cases\":%llu,\"executed\":%llu,\"distinct_nontrivial\":%llu,\"set_saturated\":0,\"deadline_hit\":%d,\"crashes\":0,\"hangs\":0,\"selfcheck\":0,\"nfail_total\":%d,\"wall_s\":%.3f,",
           hb_property(), tier, nw, (unsigned long long)X->schedules, (unsigned long long)X->schedules, (unsigned long long)X->schedules, X->deadline_hit || X->dropped || X->stalled ? 1 : 0, X->nfail, now() - t0);
-  fprintf(f, "\"counters\":{\"states\":%llu,\"transitions\":%llu,\"traces_validated_against_impl\":%llu,\"schedules\":%llu,\"preemption_bound\":%d,\"alternatives_beyond_bound\":%llu,\"max_decisions_per_execution\":%llu,\"instrumented_accesses\":%llu,\"static_writes_max\":%llu,\"cross_thread_reads_max\":%llu,\"max_live_threads\":%d,\"races\":%llu,\"digest_mismatches\":%llu,\"deadlocks\":%llu,\"queue_dropped\":%llu,\"scenarios\":%llu},",
-          (unsigned long long)(X->tree_nodes + 1), (unsigned long long)X->decisions, (unsigned long long)X->schedules, (unsigned long long)X->schedules, g_bound, (unsigned long long)X->pruned_by_bound, (unsigned long long)X->maxpts, (unsigned long long)X->accesses, (unsigned long long)X->static_writes, (unsigned long long)X->crossloc, X->maxthreads, (unsigned long long)X->races, (unsigned long long)X->mismatches, (unsigned long long)X->deadlocks, (unsigned long long)X->dropped, (unsigned long long)nscen_done);
+  fprintf(f, "\"counters\":{\"states\":%llu,\"transitions\":%llu,\"traces_validated_against_impl\":%llu,\"schedules\":%llu,\"preemption_bound\":%d,\"alternatives_beyond_bound\":%llu,\"max_decisions_per_execution\":%llu,\"instrumented_accesses\":%llu,\"static_writes_max\":%llu,\"cross_thread_reads_max\":%llu,\"max_live_threads\":%d,\"races\":%llu,\"digest_mismatches\":%llu,\"deadlocks\":%llu,\"queue_dropped\":%llu,\"slow_executions_rerun\":%llu,\"scenarios\":%llu},",
+          (unsigned long long)(X->tree_nodes + 1), (unsigned long long)X->decisions, (unsigned long long)X->schedules, (unsigned long long)X->schedules, g_bound, (unsigned long long)X->pruned_by_bound, (unsigned long long)X->maxpts, (unsigned long long)X->accesses, (unsigned long long)X->static_writes, (unsigned long long)X->crossloc, X->maxthreads, (unsigned long long)X->races, (unsigned long long)X->mismatches, (unsigned long long)X->deadlocks, (unsigned long long)X->dropped, (unsigned long long)X->slow_reruns, (unsigned long long)nscen_done);
   fprintf(f, "\"samples\":["); int ns = X->nsamples > 8 ? 8 : X->nsamples; for (int i = 0; i < ns; i++) { if (i) fputc(',', f); jstr(f, X->samples[i]); }
   if (!ns) { char b[200]; snprintf(b, sizeof b, "%s: default schedule", hb_name()); jstr(f, b); }
   fprintf(f, "],\"failures\":["); int nf = X->nfail > 32 ? 32 : X->nfail;
